@@ -78,6 +78,12 @@ var atColKinds = map[string]colKind{
 		func(r *vc.Rand) interface{} { return []string{"test", "AQID", "abcd", "YWJj", "Zm9v"}[r.Intn(5)] }},
 	"text": {"text", func(n string) mm.Column { return mm.Column{Name: n, T: mm.TChar, DataType: "text", ColType: "text"} },
 		func(r *vc.Rand) interface{} { return strings.Repeat("lorem ipsum ", 1+r.Intn(30)) }},
+	// character types that the AT image builder scans into raw bytes (everything outside its VARCHAR/CHAR/TEXT case)
+	"mediumtext": {"mediumtext", func(n string) mm.Column { return mm.Column{Name: n, T: mm.TChar, DataType: "mediumtext", ColType: "mediumtext"} },
+		func(r *vc.Rand) interface{} { return []string{"draft", "", "名前 text", strings.Repeat("medium ", 1+r.Intn(20)), "AQID"}[r.Intn(5)] }},
+	"enum": {"enum", func(n string) mm.Column {
+		return mm.Column{Name: n, T: mm.TChar, DataType: "enum", ColType: "enum('draft','open','closed')"}
+	}, func(r *vc.Rand) interface{} { return []string{"draft", "open", "closed"}[r.Intn(3)] }},
 	"double": {"double", func(n string) mm.Column { return mm.Column{Name: n, T: mm.TDouble, ColType: "double"} },
 		func(r *vc.Rand) interface{} { return []float64{0, 1.5, -2.25, 1e-300, 1e300, 3.141592653589793, 100}[r.Intn(7)] }},
 	"float": {"float", func(n string) mm.Column { return mm.Column{Name: n, T: mm.TFloat, ColType: "float"} },
@@ -107,7 +113,7 @@ var atColKinds = map[string]colKind{
 
 // value column kinds the plain workloads draw from ("safe" = no catalogue defect is known for them on this tree)
 var atSafeKinds = []string{"int", "bigint", "varchar", "double", "datetime6", "datetime", "date"}
-var atAllKinds = []string{"int", "bigint", "tinyint", "ubigint", "varchar", "varchar_b64", "text", "double", "float", "decimal", "datetime6", "datetime", "date", "timestamp3", "blob", "varbinary"}
+var atAllKinds = []string{"int", "bigint", "tinyint", "ubigint", "varchar", "varchar_b64", "text", "double", "float", "decimal", "datetime6", "datetime", "date", "timestamp3", "blob", "varbinary", "mediumtext", "enum"}
 
 // ---------- tables ----------
 
@@ -151,6 +157,11 @@ func atGenTable(r *vc.Rand, name, pkKind string, kinds []string, nv, nrows int, 
 		t.Def.PK = []int{add(mm.Column{Name: "id", T: mm.TInt, Bits: 64, AutoInc: true, ColType: "bigint(20)"}, "pk")}
 	case "varchar":
 		t.Def.PK = []int{add(mm.Column{Name: "code", T: mm.TChar, Len: 32, ColType: "varchar(32)"}, "pk")}
+	case "composite_txt":
+		// two text parts whose values run into each other when glued together without a separator
+		a := add(mm.Column{Name: "t1", T: mm.TChar, Len: 8, ColType: "varchar(8)"}, "pk")
+		b := add(mm.Column{Name: "t2", T: mm.TChar, Len: 8, ColType: "varchar(8)"}, "pk")
+		t.Def.PK = []int{a, b}
 	case "binary":
 		// byte-valued key (the usual shape of UUID keys)
 		t.Def.PK = []int{add(mm.Column{Name: "bk", T: mm.TBin, Len: 16, DataType: "varbinary", ColType: "varbinary(16)"}, "pk")}
@@ -186,6 +197,11 @@ func atGenTable(r *vc.Rand, name, pkKind string, kinds []string, nv, nrows int, 
 					row[ci] = fmt.Sprintf("K%02d", i+1)
 				case "bk":
 					row[ci] = []byte(fmt.Sprintf("b%02dz", i+1))
+				case "t1", "t2":
+					// rows 2p and 2p+1: (x, yz) and (xy, z)
+					x, y, z := string(rune('a'+i/2)), string(rune('b'+i/2)), string(rune('c'+i/2))
+					pair := [][2]string{{x, y + z}, {x + y, z}}[i%2]
+					row[ci] = pair[map[string]int{"t1": 0, "t2": 1}[c.Name]]
 				case "k2", "kc":
 					row[ci] = []string{"a", "b", "x"}[i%3]
 				case "ka":
@@ -266,6 +282,7 @@ func (t *atTable) valueCols() []int {
 type atStmtOpts struct {
 	params    bool // bound parameters (false: literals)
 	rowsClass string // "0" "1" "many"
+	shuffleCols bool // INSERT: column list in another order than the table's
 }
 
 // atGenUpdate: UPDATE t SET <1..2 value columns> WHERE ...
@@ -385,6 +402,17 @@ func atGenInsert(r *vc.Rand, t *atTable, o atStmtOpts, nrows int, seq *int) atSt
 		cols = append(cols, c.Name)
 		cis = append(cis, ci)
 	}
+	colOrder := "table"
+	if o.shuffleCols && len(cis) > 1 {
+		// the column list of the statement need not follow the table's column order
+		perm := r.Perm(len(cis))
+		c2, i2 := make([]string, len(cis)), make([]int, len(cis))
+		for k, p := range perm {
+			c2[k], i2[k] = cols[p], cis[p]
+		}
+		cols, cis = c2, i2
+		colOrder = "shuffled"
+	}
 	var groups []string
 	var args []tval
 	for k := 0; k < nrows; k++ {
@@ -401,6 +429,12 @@ func atGenInsert(r *vc.Rand, t *atTable, o atStmtOpts, nrows int, seq *int) atSt
 					v = fmt.Sprintf("N%03d", *seq)
 				case "k2", "kc":
 					v = "n"
+				case "t1":
+					v = fmt.Sprintf("n%d", *seq)
+				case "t2":
+					v = "q"
+				case "bk":
+					v = []byte(fmt.Sprintf("n%02dz", *seq))
 				case "ka":
 					v = int64(5000 + *seq)
 				}
@@ -423,7 +457,34 @@ func atGenInsert(r *vc.Rand, t *atTable, o atStmtOpts, nrows int, seq *int) atSt
 		rc = "many"
 	}
 	return atStmt{Kind: "insert", Table: t.Name, SQL: fmt.Sprintf("insert into %s (%s) values %s", t.Name, strings.Join(cols, ", "), strings.Join(groups, ", ")), Args: args,
-		Feat: map[string]string{"stmt": "insert", "params": fmt.Sprint(o.params), "rows": rc}}
+		Feat: map[string]string{"stmt": "insert", "params": fmt.Sprint(o.params), "rows": rc, "insert_cols": colOrder}}
+}
+
+// atInsertedRow: the key values atGenInsert gave the row it generated at sequence number seq (other columns nil)
+func atInsertedRow(t *atTable, seq int) []interface{} {
+	row := make([]interface{}, len(t.Def.Cols))
+	for ci, c := range t.Def.Cols {
+		if t.Kinds[ci] != "pk" {
+			continue
+		}
+		switch c.Name {
+		case "id", "k1", "kb":
+			row[ci] = int64(1000 + seq)
+		case "code":
+			row[ci] = fmt.Sprintf("N%03d", seq)
+		case "k2", "kc":
+			row[ci] = "n"
+		case "t1":
+			row[ci] = fmt.Sprintf("n%d", seq)
+		case "t2":
+			row[ci] = "q"
+		case "bk":
+			row[ci] = []byte(fmt.Sprintf("n%02dz", seq))
+		case "ka":
+			row[ci] = int64(5000 + seq)
+		}
+	}
+	return row
 }
 
 // atGenUpsert: INSERT ... ON DUPLICATE KEY UPDATE hitting an existing key (hit) or a new one (miss).
@@ -449,6 +510,12 @@ func atGenUpsert(r *vc.Rand, t *atTable, o atStmtOpts, hit bool, seq *int) atStm
 					v = fmt.Sprintf("U%03d", *seq)
 				case "k2", "kc":
 					v = "u"
+				case "t1":
+					v = fmt.Sprintf("u%d", *seq)
+				case "t2":
+					v = "r"
+				case "bk":
+					v = []byte(fmt.Sprintf("u%02dz", *seq))
 				case "ka":
 					v = int64(7000 + *seq)
 				}
@@ -479,6 +546,82 @@ func atGenUpsert(r *vc.Rand, t *atTable, o atStmtOpts, hit bool, seq *int) atStm
 	}
 	return atStmt{Kind: "upsert", Table: t.Name, SQL: fmt.Sprintf("insert into %s (%s) values (%s) on duplicate key update %s", t.Name, strings.Join(cols, ", "), strings.Join(ph, ", "), upd), Args: args,
 		Feat: map[string]string{"stmt": "upsert", "params": fmt.Sprint(o.params), "rows": "1", "upsert": h}}
+}
+
+// atGenUpsertMulti: one INSERT ... ON DUPLICATE KEY UPDATE with several value groups, some naming existing keys and
+// some new ones (mix = "hit+miss"), or all of one sort.
+func atGenUpsertMulti(r *vc.Rand, t *atTable, o atStmtOpts, seq *int) atStmt {
+	n := 2 + r.Intn(2)
+	perm := r.Perm(len(t.Rows))
+	var cols, groups []string
+	var args []tval
+	for _, c := range t.Def.Cols {
+		cols = append(cols, c.Name)
+	}
+	hits, misses := 0, 0
+	for k := 0; k < n; k++ {
+		var base []interface{}
+		if k < len(perm) && (k == 0 || r.Bool()) && !(k == n-1 && misses == 0 && r.Intn(4) != 0) {
+			base = t.Rows[perm[k]]
+			hits++
+		} else {
+			misses++
+		}
+		*seq++
+		var ph []string
+		for ci, c := range t.Def.Cols {
+			var v interface{}
+			if t.Kinds[ci] == "pk" {
+				if base != nil {
+					v = base[ci]
+				} else {
+					switch c.Name {
+					case "id", "k1", "kb":
+						v = int64(3000 + *seq)
+					case "code":
+						v = fmt.Sprintf("M%03d", *seq)
+					case "k2", "kc":
+						v = "m"
+					case "t1":
+						v = fmt.Sprintf("m%d", *seq)
+					case "t2":
+						v = "s"
+					case "ka":
+						v = int64(9000 + *seq)
+					case "bk":
+						v = []byte(fmt.Sprintf("m%02dz", *seq))
+					}
+				}
+			} else {
+				v = atColKinds[t.Kinds[ci]].gen(r)
+			}
+			if o.params {
+				ph = append(ph, "?")
+				args = append(args, tvOf(v))
+			} else {
+				ph = append(ph, sqlLit(v))
+			}
+		}
+		groups = append(groups, "("+strings.Join(ph, ", ")+")")
+	}
+	vcs := t.valueCols()
+	ci := vcs[r.Intn(len(vcs))]
+	uc := t.Def.Cols[ci]
+	uv := atColKinds[t.Kinds[ci]].gen(r)
+	upd := uc.Name + " = ?"
+	if o.params {
+		args = append(args, tvOf(uv))
+	} else {
+		upd = uc.Name + " = " + sqlLit(uv)
+	}
+	mix := "hit+miss"
+	if misses == 0 {
+		mix = "hits"
+	} else if hits == 0 {
+		mix = "misses"
+	}
+	return atStmt{Kind: "upsert", Table: t.Name, SQL: fmt.Sprintf("insert into %s (%s) values %s on duplicate key update %s", t.Name, strings.Join(cols, ", "), strings.Join(groups, ", "), upd), Args: args,
+		Feat: map[string]string{"stmt": "upsert", "params": fmt.Sprint(o.params), "rows": "many", "upsert": mix}}
 }
 
 func indexOfCol(t *atTable, name string) int {
